@@ -21,7 +21,7 @@ ANCHORS = ['phylib.io.alf:EphysAlfCreator.convert', 'phylib.io.alf:EphysAlfCreat
            'phylib.io.model:TemplateModel._load_spike_samples', 'phylib.io.model:TemplateModel._load_templates']
 RULE = ('Each case = a generated dense-template dataset {raw data int16/float32 in 1-3 files | absent} x '
         '{features dense/sparse | none} x {curated | uncurated, with a spikeless template first/middle/last} x '
-        '{probe table with 1 or 2 probes whose ids need not be 0..n-1 | none} x {KSLabel / other TSVs, temp_wh.dat, cluster_probes, (n,1) vectors} x label '
+        '{probe table with 1 or 2 probes whose ids need not be 0..n-1 | none} x {KSLabel / other TSVs, temp_wh.dat, cluster_probes, (n,1) vectors} x id dtype int32/uint32/uint16 with cluster ids occasionally jumping by 300 or 2500, occasionally 300 templates x 3 large datasets (300000 spikes: id files > 1 MiB) x label '
         '{"", "lbl"} x unit factor {1, 2.5}, loaded and converted with the real EphysAlfCreator.convert. C13 '
         'oracle: file-table checker over the output directory (required files, first dimension per object, '
         'times in seconds / samples in samples, unique uuids, label in every object file name), equality of '
@@ -43,12 +43,15 @@ REQUIRED = {'spikes': ['times', 'samples', 'amps', 'depths', 'clusters', 'templa
 
 def plan(tier, seed):
     n = 640 if tier == 'quick' else 10000
-    return [{'shard': i, 'n': NSHARDS, 'seed': seed, 'cases': n // NSHARDS} for i in range(NSHARDS)]
+    return [{'shard': i, 'n': NSHARDS, 'seed': seed, 'cases': n // NSHARDS, 'large': 3 if tier == 'quick' else 16}
+            for i in range(NSHARDS)]
 
 
 def run_shard(desc, ctx):
     for i in range(desc['cases']):
         run_case({'seed': [desc['seed'], desc['shard'], i], 'source': 'generated'}, ctx)
+    if desc['shard'] < desc.get('large', 3):
+        run_case({'seed': [desc['seed'], desc['shard'], 777], 'source': 'generated', 'large': True}, ctx)
 
 
 def run_case(case, ctx, which='C13'):
@@ -70,7 +73,14 @@ def build(case):
                 probes=bool(rng.random() < 0.35), wm=bool(rng.random() < 0.75), vec2d=bool(rng.random() < 0.25),
                 rate=[100., 30000., 0.05][int(rng.integers(0, 3))], ties=bool(rng.random() < 0.3),
                 shanks=[0, 2][int(rng.integers(0, 2))], ncdat_extra=int(rng.integers(0, 2)),
-                dtype_ids=['int32', 'uint32'][int(rng.integers(0, 2))])
+                dtype_ids=['int32', 'uint32', 'uint16'][int(rng.integers(0, 3))],
+                far_ids=int(rng.choice([0, 0, 0, 0, 300, 2500])))
+    if rng.random() < 0.03:
+        # many templates with narrow id dtypes (products of ids overflow 16 bits)
+        opts.update(nt=300, ns=900, dtype_ids='uint16', clusters='curated', far_ids=0, raw='none', features='none')
+    if case.get('large'):
+        # size-dependent code paths: > 1 MiB id files (> 262144 int32 spikes)
+        opts.update(ns=300000, n_samples=400000, raw='none', features='none', far_ids=0, nc=6, nt=5, rate=30000.)
     spec = random_spec(rng, **opts)
     if spec.probes is not None:
         # 2-probe table following the merge convention: raw indices of probe 1 = local map + max(map of probe 0)
